@@ -76,12 +76,6 @@ impl<B: Backend> TaggedSmart<B> {
     const fn check_tag(self) -> bool {
         self.0 & MASK == TAG
     }
-
-    /// Explicitly clones this tagged smart pointer.
-    fn explicit_clone(self) -> Self {
-        let r = ManuallyDrop::new(self.into());
-        Self::from((*r).clone())
-    }
 }
 
 /// Allocated representation.
@@ -275,7 +269,11 @@ impl<B: Backend> Allocated<B> {
         debug_assert!(range.start <= self.len);
         debug_assert!(range.end <= self.len);
 
-        let owner = self.owner.explicit_clone();
+        if self.owner().incr() == UpdateResult::Overflow {
+            // the owner cannot be shared (unique backend or count at its
+            // ceiling): the slice must own a private copy of its bytes
+            return Self::from_slice(&self.as_slice()[range]);
+        }
 
         // SAFETY: type invariant -> self.ptr..self.ptr+self.len is valid
         // also Rust like C specify you can move to the last + 1
@@ -284,7 +282,7 @@ impl<B: Backend> Allocated<B> {
         Self {
             ptr,
             len: range.len(),
-            owner,
+            owner: self.owner,
         }
     }
 
